@@ -151,3 +151,59 @@ Print Assumptions C16_unknown_verbatim.
 Print Assumptions C16_named_constants.
 Print Assumptions C16_method_roundtrip.
 Print Assumptions C16_quoted_backslash_accepted.
+
+(* ------------------------------------------------------------------------------------------------------------
+   Extension (third round) *)
+From Coq Require Import List String NArith ZArith Bool Arith Permutation.
+From Tealer Require Import Tables Leaves LeafPrelude Syntax Parse Cfg StackAst Keys Analysis Domains Detect Group Runs Eval Exec ExecLemmas GroupLemmas NoMiss NoMiss2 TypeExec GroupSem GroupSem2 Base64 ParseLemmas2 Base64Lemmas.
+
+(* the base64 decoder is correct against an independent RFC 4648 specification (Spec/Base64.v), for byte strings of every length, padded *)
+Theorem C16_base64_decoder_correct :
+  forall bs : list N, is_bytes bs -> b64_decode (b64_encode bs) = ("0x" ++ hex_spec bs)%string.
+Proof. exact @b64_decode_padded. Qed.
+
+(* ... and unpadded *)
+Theorem C16_base64_decoder_correct_unpadded :
+  forall bs : list N, is_bytes bs -> b64_decode (b64_encode_nopad bs) = ("0x" ++ hex_spec bs)%string.
+Proof. exact @b64_decode_nopad. Qed.
+
+(* base32 likewise *)
+Theorem C16_base32_decoder_correct :
+  forall bs : list N, is_bytes bs -> b32_decode (b32_encode bs) = ("0x" ++ hex_spec bs)%string.
+Proof. exact @b32_decode_padded. Qed.
+
+(* a `byte base64 <X>` line whose payload contains no `//` parses to the hex form of the encoded bytes *)
+Theorem C16_base64_literal_is_its_bytes :
+  forall (kw sp : string) (bs : list N) (n : nat),
+       bytes1_kw kw ->
+       sp = "base64" \/ sp = "b64" ->
+       is_bytes bs ->
+       ParseLemmas.word_ok (b64_encode_nopad bs ++ eqs n) = true ->
+       parse_line (kw ++ " " ++ sp ++ " " ++ b64_encode_nopad bs ++ eqs n) = Ok (Some (IOther (bytes_cls kw) (PStr ("0x" ++ hex_spec bs) :: nil))).
+Proof. exact @parse_base64_literal. Qed.
+
+Theorem C16_base32_literal_is_its_bytes :
+  forall (kw sp : string) (bs : list N) (n : nat),
+       bytes1_kw kw ->
+       sp = "base32" \/ sp = "b32" ->
+       is_bytes bs ->
+       bs <> nil ->
+       parse_line (kw ++ " " ++ sp ++ " " ++ b32_encode_nopad bs ++ eqs n) = Ok (Some (IOther (bytes_cls kw) (PStr ("0x" ++ hex_spec bs) :: nil))).
+Proof. exact @parse_base32_literal. Qed.
+
+(* REFUTED (finding D30): a canonical base64 payload containing `//` (e.g. //8= for ff ff) is cut as a comment *)
+Theorem C16_base64_literal_with_slashes_refuted :
+  exists bs : list N,
+         is_bytes bs /\
+         b64_encode bs = "//8=" /\
+         parse_line ("byte base64 " ++ b64_encode bs) = Err "ParseError: incorrect byte format" /\
+         parse_line ("byte base64(" ++ b64_encode bs ++ ")") = Err "ParseError: expects exactly one argument" /\
+         parse_line ("byte 0x" ++ hex_spec bs) = Ok (Some (IOther "Byte" (PStr "0xffff" :: nil))).
+Proof. exact @parse_base64_literal_refuted. Qed.
+
+Print Assumptions C16_base64_decoder_correct.
+Print Assumptions C16_base64_decoder_correct_unpadded.
+Print Assumptions C16_base32_decoder_correct.
+Print Assumptions C16_base64_literal_is_its_bytes.
+Print Assumptions C16_base32_literal_is_its_bytes.
+Print Assumptions C16_base64_literal_with_slashes_refuted.
